@@ -60,6 +60,24 @@ func cameThrough(cond ssa.Value, pol bool) (*ssa.Phi, int, bool) {
 		}
 		break
 	}
+	// a boolean result variable: `if ok` where ok = φ{true | false | ...constants}
+	if bp, isPhi := cond.(*ssa.Phi); isPhi {
+		cand, n := -1, 0
+		for i, e := range bp.Edges {
+			c, isC := e.(*ssa.Const)
+			if !isC || c.Value == nil || c.Value.Kind() != constant.Bool {
+				return nil, 0, false
+			}
+			if constant.BoolVal(c.Value) == pol {
+				cand = i
+				n++
+			}
+		}
+		if n != 1 {
+			return nil, 0, false
+		}
+		return bp, cand, true
+	}
 	bo, ok := cond.(*ssa.BinOp)
 	if !ok || (bo.Op != token.EQL && bo.Op != token.NEQ) {
 		return nil, 0, false
@@ -426,7 +444,7 @@ func blockEvents(b *ssa.BasicBlock) []Event {
 			t := &termer{phis: map[*ssa.Phi]bool{}}
 			out = append(out, Event{Kind: EvGo, Text: t.call(&x.Call), Instr: x})
 		case *ssa.Store:
-			out = append(out, Event{Kind: EvStore, Text: AddrTerm(x.Addr) + " = " + Term(x.Val), Instr: x})
+			out = append(out, Event{Kind: EvStore, Text: AddrTerm(x.Addr) + " = " + TermAt(x.Val, b), Instr: x})
 		case *ssa.MapUpdate:
 			out = append(out, Event{Kind: EvMapUpdate, Text: Term(x.Map) + "[" + Term(x.Key) + "] = " + Term(x.Value), Instr: x})
 		case *ssa.Return:
